@@ -84,10 +84,92 @@ def run(ctx, out):
                 "(EOPNOTSUPP on ext4), by each 'unsupported' errno (EOPNOTSUPP EINVAL EXDEV ETXTBSY), by a hard errno "
                 "(EIO EPERM ENOSPC), or emulated as successful (return 0, ioctl skipped) by the supervisor; plus trees of 12 files "
                 "where the answer differs from file to file (refused for the first 1 or 3, successful after; real; successful "
-                "for all): the contract is judged per file; distinct = distinct case tuple")
+                "for all): the contract is judged per file; plus trees copied ACROSS file systems (tmpfs <-> work directory), the kernel's own answer; distinct = distinct case tuple")
     out.assumptions.append("C15: a real successful clone is never exercised here (ext4 has no reflink); success is emulated")
     datapath.run_cases(ctx, out, gen(ctx), "C15", oracle, nontrivial)
     run_trees(ctx, out)
+    run_cross(ctx, out)
+
+
+def run_cross(ctx, out):
+    """Source and destination on DIFFERENT file systems (a tmpfs and the work directory's): the answer to the clone request
+    is the kernel's own (EXDEV / EOPNOTSUPP).  never: no request; always: non-zero exit, never a silent byte copy; auto: the
+    request is still made first for every file, then a byte-exact copy, exit 0."""
+    rng = ctx.rng
+    sup = core.build_sup()
+    other = "/dev/shm"
+    d0 = ctx.work.fresh("c15cross")
+    try:
+        usable = os.access(other, os.W_OK) and os.stat(other).st_dev != os.stat(d0).st_dev
+    except OSError:
+        usable = False
+    if not usable:
+        out.count("other_filesystem_unavailable")
+        return
+    ext = os.path.join(other, "xcp-verif-c15-%d" % os.getpid())
+    k = 0
+    try:
+        for driver in ("parfile", "parblock"):
+            for mode in ("auto", "never", "always"):
+                for direction in ("from-tmpfs", "to-tmpfs"):
+                    k += 1
+                    shutil.rmtree(ext, ignore_errors=True)
+                    d = os.path.join(d0, "x%d" % k)
+                    os.makedirs(d)
+                    os.makedirs(ext)
+                    sroot, droot = (ext, d) if direction == "from-tmpfs" else (d, ext)
+                    files = []
+                    for i, size in enumerate([1, 4096, 100001, 300000]):
+                        os.makedirs(os.path.join(sroot, "src", "d%d" % (i % 2)), exist_ok=True)
+                        p = os.path.join(sroot, "src", "d%d" % (i % 2), "f%d" % i)
+                        fsutil.make_file(p, size, [(0, size)], tag=k * 8 + i + 1, sync=False)
+                        files.append(os.path.relpath(p, os.path.join(sroot, "src")))
+                    dst = os.path.join(droot, "dst")
+                    argv = [ctx.bins["xcp"], "-r", "-T", "--driver", driver, "-w", str(rng.choice([1, 2, 4])), "--reflink", mode,
+                            "--block-size", "65536", os.path.join(sroot, "src"), dst]
+                    r = xcp.run_supervised(sup, argv, d, droot, tag="x", timeout_ms=60000)     # trace the DESTINATION's file system
+                    out.case(("cross-filesystem", driver, mode, direction), True)
+                    out.count("cross_filesystem_" + mode)
+                    rep = dict(kind="source and destination on different file systems (%s)" % direction, argv=argv[1:], exit=r.exit, stderr=r.stderr[-300:])
+                    per = {}
+                    for e in r.trace:
+                        if e.get("ret") is None:
+                            continue
+                        if e["sys"] == "ioctl" and e["a"][1] == xcp.FICLONE and e["p1"].startswith(dst):
+                            per.setdefault(e["p1"], dict(clone=[], data=[]))["clone"].append((e["e"], e["ret"]))
+                        elif e["sys"] == "copy_file_range" and e["p2"].startswith(dst):
+                            per.setdefault(e["p2"], dict(clone=[], data=[]))["data"].append(e["e"])
+                        elif e["sys"] in ("write", "pwrite64") and e["p1"].startswith(dst):
+                            per.setdefault(e["p1"], dict(clone=[], data=[]))["data"].append(e["e"])
+                    nclone = sum(len(v["clone"]) for v in per.values())
+                    if mode == "never":
+                        if nclone:
+                            out.violation("reflink=never but a clone request (FICLONE) was issued", rep)
+                        elif r.exit != 0:
+                            out.violation("reflink=never copy across file systems failed: exit %d" % r.exit, rep)
+                    elif mode == "always":
+                        if r.exit == 0:
+                            out.violation("reflink=always exited 0 across file systems, where no clone can succeed (%d clone requests made, %d files "
+                                          "written byte by byte)" % (nclone, sum(1 for v in per.values() if v["data"])), rep)
+                    else:
+                        if r.exit != 0:
+                            out.violation("reflink=auto failed (exit %d) where cloning is merely unavailable" % r.exit, rep)
+                        else:
+                            for rel in files:
+                                p = os.path.join(dst, rel)
+                                v = per.get(p, dict(clone=[], data=[]))
+                                if not v["clone"]:
+                                    out.violation("reflink=auto did not try to clone %s first (source and destination on different file systems)" % rel, rep)
+                                    break
+                                if v["data"] and min(v["data"]) < v["clone"][0][0]:
+                                    out.violation("reflink=auto copied data of %s before trying to clone it" % rel, rep)
+                                    break
+                                if not datapath.files_equal(os.path.join(sroot, "src", rel), p):
+                                    out.violation("reflink=auto fell back for %s but the copy is not byte-exact" % rel, rep)
+                                    break
+                    shutil.rmtree(d, ignore_errors=True)
+    finally:
+        shutil.rmtree(ext, ignore_errors=True)
 
 
 def run_trees(ctx, out):
